@@ -229,12 +229,30 @@ def proof_obligations(pid, tier):
 # ---------------------------------------------------------------------------------------------
 # step 3/4: correspondence + property oracle
 
-def build_harness():
-    exe = os.path.join(BUILD, "verifharness")
+def build_harness(race=False):
+    exe = os.path.join(BUILD, "verifharness-race" if race else "verifharness")
     shutil.copyfile(os.path.join(REPO, "dnsrocks", "go.sum"), os.path.join(HARNESS_SRC, "go.sum"))
-    rc, out = run(["go", "build", "-tags", "verif", "-ldflags=-checklinkname=0", "-o", exe, "."],
-                  cwd=HARNESS_SRC, env=GOENV, timeout=3600)
+    cmd = ["go", "build"] + (["-race"] if race else []) + ["-tags", "verif", "-ldflags=-checklinkname=0", "-o", exe, "."]
+    rc, out = run(cmd, cwd=HARNESS_SRC, env=GOENV, timeout=3600)
     return rc == 0, out, exe
+
+
+def race_reports(workdir):
+    """Parse Go race detector logs written under workdir/race.*: list of (frames, text)."""
+    reps = []
+    for fn in sorted(os.listdir(workdir)):
+        if not fn.startswith("race."):
+            continue
+        txt = open(os.path.join(workdir, fn), errors="replace").read()
+        for block in txt.split("WARNING: DATA RACE")[1:]:
+            frames = re.findall(r"^\s+(/\S+\.go:\d+)", block, flags=re.M)
+            tops = []
+            for part in re.split(r"\n(?:Previous |Goroutine )", block)[:2]:
+                m = re.search(r"^\s+(/\S+\.go:\d+)", part, flags=re.M)
+                if m:
+                    tops.append(m.group(1))
+            reps.append((tops, ("WARNING: DATA RACE" + block)[:6000]))
+    return reps
 
 
 class Case:
@@ -269,6 +287,8 @@ def execute_ops(pid, ops_lines, workdir, exe, tag="x"):
     env = dict(GOENV)
     env["TMPDIR"] = workdir
     env.setdefault("GOMEMLIMIT", "8GiB")
+    if PROPS[pid].get("race_build"):
+        env["GORACE"] = f"log_path={os.path.join(workdir, 'race')} halt_on_error=0"
     impl_lines = []
     start = 0
     rounds = 0
@@ -472,7 +492,7 @@ def decide(pid, cfg, args, workdir, t_start):
             po = {"obligations": ["skipped"], "discharged": ["skipped"], "broken": [], "axioms": set(), "log": out}
         else:
             po = proof_obligations(pid, tier)
-        hok, hout, exe = build_harness()
+        hok, hout, exe = build_harness(race=bool(cfg.get("race_build")))
         if not hok:
             tie_broken.append(("harness-build", hout[-1500:]))
         drv_ok = os.path.exists(os.path.join(LEAN, ".lake", "build", "bin", "dnsdrv"))
@@ -555,6 +575,19 @@ def decide(pid, cfg, args, workdir, t_start):
             shr = shrink_case(pid, c, prelude, workdir, exe, lambda x: not x.prop_ok) if cfg.get("shrink", True) else c
             violations.append(("property-oracle", "implementation violates the property statement on this input",
                                {"cases": [shr.to_json()], "original": c.to_json()}))
+    # data-race reports of the -race build (C14): every report is a violation (replay = the report)
+    if cfg.get("race_build"):
+        reps = race_reports(workdir)
+        gen_stats["race_reports"] = len(reps)
+        seen_pairs = set()
+        for tops, text in reps:
+            key = tuple(sorted(tops))
+            if key in seen_pairs:
+                continue
+            seen_pairs.add(key)
+            if len(violations) < 5:
+                violations.append(("race-report", "Go race detector report (an unsynchronised conflicting access)",
+                                   {"race_frames": tops, "report": text, "cases": [c.to_json() for c in cases[:2]]}))
     # correspondence disagreement without oracle failure: model or code changed; search
     corr_only = [c for c in corr_bad if c.prop_ok and not is_known(c)]
     search_needed = bool(corr_only or po["broken"] or tie_broken)
